@@ -292,4 +292,84 @@ def cases():
             {"name": "any", "sources": ["main.c"], "depends": ["stdio", "?heavy"]},
             {"name": "rtt", "sources": ["main.c"], "depends": ["stdio_rtt"]}]
     out.append((base(mods, apps, builders=blds), {}))
+    # 41: two global build deps that two apps reach in opposite order; a module shared by both apps: its
+    #     statements list the order-only deps sorted, so both builds emit the SAME statement for the shared object
+    mods = [{"name": "g1", "is_global_build_dep": True, "build": {"cmd": ["gen1 > ${out}"], "out": ["g1.h"]}},
+            {"name": "g2", "is_global_build_dep": True, "build": {"cmd": ["gen2 > ${out}"], "out": ["g2.h"]}},
+            {"name": "lib", "sources": ["lib.c"]}]
+    out.append((base(mods, [{"name": "app1", "sources": ["main.c"], "depends": ["g1", "g2", "lib"]},
+                            {"name": "app2", "sources": ["main.c"], "depends": ["g2", "g1", "lib"]}]), {}))
+    # 42: an escaped reference in a custom build command stays literal although the name is defined in the module's env
+    mods = [{"name": "gen", "build": {"cmd": ["mk --prefix=\\${PREFIX} --real=${PREFIX} \\${out} > ${out}"], "out": ["gen.h"], "gcc_deps": "${out}.d"},
+             "env": {"local": {"PREFIX": "/opt/local"}, "global": {"PREFIX": "/opt/global"}}, "is_build_dep": True}]
+    out.append((base(mods, [{"name": "app", "sources": ["main.c"], "depends": ["gen"]}]), {}))
+    # 43: a document that declares nothing before the document whose defaults are handed down through subdirs:
+    f = {"laze-project.yml": [{"contexts": [{"name": "default", "rules": RULES, "env": {"bindir": "${build-dir}/${builder}/${app}"}}], "builders": [{"name": "b0"}]},
+                              {},
+                              {"defaults": {"module": {"env": {"global": {"CFLAGS": ["-DFROM_MODULE_DEFAULTS"]}}}, "app": {"depends": ["base"], "env": {"global": {"CFLAGS": ["-DFROM_APP_DEFAULTS"]}}}},
+                               "subdirs": ["lib", "app"]},
+                              {},
+                              {"defaults": {"module": {"env": {"global": {"CFLAGS": ["-DOTHER"]}}}}, "subdirs": ["other"]}],
+         "lib/laze.yml": [{"modules": [{"name": "base", "sources": ["base.c"]}]}],
+         "app/laze.yml": [{}, {"apps": [{"name": "hello", "sources": ["hello.c"]}]}],
+         "other/laze.yml": [{"modules": [{"name": "othermod", "sources": ["o.c"]}], "apps": [{"name": "second", "sources": ["s.c"], "depends": ["othermod"]}]}]}
+    out.append((f, {}))
+    # 44: the compile rule uses a response file whose content mentions variables; modules with the same command
+    #     line but different values of these variables: one rule (the content is not expanded), and editing one
+    #     module's local variable leaves the others' statements alone
+    mods = [{"name": "liba", "sources": ["liba.c"], "env": {"local": {"INCLUDES": ["-Ia"]}}},
+            {"name": "libb", "sources": ["libb.c"], "env": {"local": {"INCLUDES": ["-Ib"]}}}]
+    f = base(mods, [{"name": "app", "sources": ["main.c"], "depends": ["liba", "libb"], "env": {"local": {"INCLUDES": ["-Iapp"]}}}])
+    f["laze-project.yml"][0]["contexts"][0]["rules"] = [{"name": "CC", "in": "c", "out": "o", "cmd": "cc @${out}.rsp -c ${in} -o ${out}",
+                                                         "rspfile": "${out}.rsp", "rspfile_content": "${CFLAGS} ${X} ${INCLUDES}"}, RULES[1]]
+    out.append((f, {}))
+    # 45: an app name declared for two contexts of one chain in two directories; local mode from the directory of
+    #     the shadowed declaration: the builder below the nearer context still does not get the farther app
+    f = {"laze-project.yml": [{"contexts": [{"name": "default", "rules": RULES, "env": {"bindir": "${build-dir}/${builder}/${app}"}}, {"name": "special", "parent": "default"}],
+                               "builders": [{"name": "plain"}, {"name": "sp", "parent": "special"}], "subdirs": ["generic", "special"]}],
+         "generic/laze.yml": [{"apps": [{"name": "hello", "sources": ["main.c"]}]}],
+         "special/laze.yml": [{"apps": [{"name": "hello", "context": "special", "sources": ["main_special.c"]}]}]}
+    out.append((f, {"local": "generic"})); out.append((f, {"local": "special"})); out.append((f, {}))
+    # 46: a task guarded by required_vars whose command computes with the guarded variable: builds that lack
+    #     the variable simply do not offer the task (nothing is evaluated there)
+    f = base([], [{"name": "app", "sources": ["main.c"]}],
+             builders=[{"name": "b0", "env": {"PORT": "8000"}}, {"name": "b1"}])
+    f["laze-project.yml"][0]["contexts"][0]["tasks"] = {"serve": {"cmd": ["serve --port $(${PORT} + 1) ${out}"], "required_vars": ["PORT"]},
+                                                        "plain": {"cmd": ["echo ${app}"]}}
+    out.append((f, {}))
+    # 47: optional sources guarded by a context module (context::<name> is selected for every builder below that context)
+    mods = [{"name": "console", "sources": ["console.c", {"context::posix": ["console_posix.c"]}, {"context::bare": ["console_bare.c"]}, {"context::default": ["console_any.c"]}]}]
+    out.append((base(mods, [{"name": "app", "sources": ["main.c"], "depends": ["console"]}],
+                     contexts=[{"name": "posix", "parent": "default"}, {"name": "bare", "parent": "default"}],
+                     builders=[{"name": "linux", "parent": "posix"}, {"name": "mcu", "parent": "bare"}, {"name": "b0"}]), {}))
+    # 48: one lazefile listed by two documents with different defaults before it is loaded: the FIRST lister's
+    #     defaults are inherited (also when a grandparent and a parent both list it)
+    ctxdoc = {"contexts": [{"name": "default", "rules": RULES, "env": {"bindir": "${build-dir}/${builder}/${app}"}}], "builders": [{"name": "b0"}]}
+    f = {"laze-project.yml": [ctxdoc,
+                              {"defaults": {"module": {"env": {"global": {"CFLAGS": ["-DLIBRARIES"]}}}}, "subdirs": ["common", "libs"]},
+                              {"defaults": {"module": {"env": {"global": {"CFLAGS": ["-DAPPLICATIONS"]}}}, "app": {"depends": ["common"]}}, "subdirs": ["common", "apps"]}],
+         "common/laze.yml": [{"modules": [{"name": "common", "sources": ["common.c"]}]}],
+         "libs/laze.yml": [{"modules": [{"name": "libx", "sources": ["libx.c"]}]}],
+         "apps/laze.yml": [{"apps": [{"name": "hello", "sources": ["hello.c"], "depends": ["libx"]}]}]}
+    out.append((f, {}))
+    f = {"laze-project.yml": [dict(ctxdoc, defaults={"module": {"env": {"global": {"CFLAGS": ["-DROOT"]}}}}, subdirs=["a", "a/b"],
+                                   apps=[{"name": "hello", "sources": ["hello.c"], "depends": ["bmod", "amod"]}])],
+         "a/laze.yml": [{"defaults": {"module": {"env": {"global": {"CFLAGS": ["-DA"]}}}}, "subdirs": ["b"], "modules": [{"name": "amod", "sources": ["amod.c"]}]}],
+         "a/b/laze.yml": [{"modules": [{"name": "bmod", "sources": ["bmod.c"]}]}]}
+    out.append((f, {}))
+    # 49: providers at three levels of a context chain that is declared child-first (also across files): the builder at
+    #     the bottom sees all of them, nearest first
+    mods = [{"name": "uart_generic", "provides": ["uart"], "sources": ["ug.c"]},
+            {"name": "uart_family", "context": "family", "provides": ["uart"], "sources": ["uf.c"], "selects": ["rtt_console"]},
+            {"name": "rtt_console", "context": "family", "sources": ["rtt.c"]},
+            {"name": "uart_soc", "context": "soc", "provides": ["uart"], "sources": ["us.c"]},
+            {"name": "uart_board", "context": "board", "provides": ["uart"], "sources": ["ub.c"]}]
+    ctxs = [{"name": "soc", "parent": "family"}, {"name": "family", "parent": "default", "env": {"FAMILY": "f"}}]
+    f = base(mods, [{"name": "app", "sources": ["main.c"], "depends": ["uart"]}], contexts=ctxs, builders=[{"name": "board", "parent": "soc"}, {"name": "b0"}])
+    out.append((f, {}))
+    f2 = {"laze-project.yml": [{"builders": [{"name": "board", "parent": "soc"}], "subdirs": ["boards", "cpu"], "apps": [{"name": "app", "sources": ["main.c"], "depends": ["uart"]}]}],
+          "boards/laze.yml": [{"modules": mods[3:]}],
+          "cpu/laze.yml": [{"contexts": [{"name": "soc", "parent": "family"}, {"name": "family"}, {"name": "default", "rules": RULES, "env": {"bindir": "${build-dir}/${builder}/${app}"}}],
+                            "modules": mods[:3]}]}
+    out.append((f2, {}))
     return out
